@@ -149,6 +149,15 @@ impl ConnectionState {
         inner.push_method(0, AmqpConnection::Close(close));
         inner.seal_writes();
         *self = ConnectionState::ClientException;
+
+        // This ends the connection for every channel and consumer just as the other ways
+        // of closing it do; tell them so instead of merely disconnecting their queues.
+        for (_, mut slot) in inner.chan_slots.drain() {
+            let _ = slot.tx.try_send(Err(Error::ClientException));
+            for (_, tx) in slot.consumers.drain() {
+                notify_consumer_end(&tx, ConsumerMessage::ClientClosedConnection);
+            }
+        }
         Ok(())
     }
 
